@@ -34,13 +34,15 @@ Find(hay, needle) ==
     IN IF S = {} THEN -1 ELSE CHOOSE i \in S : \A j \in S : i <= j
 
 \* ---- integer codec (big-endian digits); little endian = reversed
-RECURSIVE DecodeU(_)
-DecodeU(bs) == IF bs = <<>> THEN 0 ELSE DecodeU(SubSeq(bs, 1, Len(bs) - 1)) * 256 + bs[Len(bs)]
+\* Horner form throughout: no power of 256 is ever computed, so integers WIDER than 4 bytes are handled as long as the
+\* value itself fits a TLC integer (leading 00 / ff bytes)
+RECURSIVE Horner(_, _)
+Horner(acc, bs) == IF bs = <<>> THEN acc ELSE Horner(acc * 256 + bs[1], Tail(bs))
+DecodeU(bs) == Horner(0, bs)
 
 DecodeBE(bs, signed) ==
     IF bs = <<>> THEN 0
-    ELSE LET top == IF signed /\ bs[1] >= 128 THEN bs[1] - 256 ELSE bs[1]
-         IN top * Pow(256, Len(bs) - 1) + DecodeU(Tail(bs))
+    ELSE Horner(IF signed /\ bs[1] >= 128 THEN bs[1] - 256 ELSE bs[1], Tail(bs))
 
 Decode(bs, signed, big) == DecodeBE(IF big THEN bs ELSE Reverse(bs), signed)
 
@@ -51,7 +53,8 @@ Representable(v, n, signed) ==
     ELSE v >= 0 /\ (n >= 4 \/ v < Pow(256, n))
 
 \* digits of v in two's complement on n bytes (floor division does the sign extension)
-EncodeBE(v, n) == [i \in 1..n |-> (v \div Pow(256, n - i)) % 256]
+RECURSIVE EncodeBE(_, _)
+EncodeBE(v, n) == IF n <= 0 THEN <<>> ELSE EncodeBE(v \div 256, n - 1) \o <<v % 256>>
 Encode(v, n, big) == IF big THEN EncodeBE(v, n) ELSE Reverse(EncodeBE(v, n))
 
 \* ---- bitwise operators on integers (two's complement, arbitrary sign)
